@@ -238,9 +238,10 @@ Proof. exact emit_roundtrip_example. Qed.
 (* a float property (parameter [fl] of the writer model) is written as (number (e 25 -10)) *)
 Example C03_emit_float_example : ltac:(let t := type of emit_float_example in exact t).
 Proof. exact emit_float_example. Qed.
-(* outside [writable]: the "&_" bus of C03_refuted_amp_bus as a whole file; the checker says no *)
-Example C03_emit_roundtrip_amp_bus_fails : ltac:(let t := type of emit_roundtrip_amp_bus_fails in exact t).
-Proof. exact emit_roundtrip_amp_bus_fails. Qed.
+(* the "&_" bus of the former C03_refuted_amp_bus as a whole file: writable, and the checker says yes (after the
+   reader repair 9b86b49) *)
+Example C03_emit_roundtrip_amp_bus_holds : ltac:(let t := type of emit_roundtrip_amp_bus_holds in exact t).
+Proof. exact emit_roundtrip_amp_bus_holds. Qed.
 
 (* PER-CONSTRUCT inverse lemmas (writer model then reader model), steps of the general statement: *)
 From SV Require Import Proofs.EdifEmitLemmas.
